@@ -36,7 +36,7 @@ find_next_multiple(_T alignment, _T offset)
   if ( alignment == 0 ) {
     return _T(0);
   } else {
-    return ( ( offset + alignment - 1 ) / alignment) * alignment;
+    return ( offset / alignment + ( offset % alignment != 0 ? _T(1) : _T(0) ) ) * alignment;
   }
 }
 
